@@ -131,7 +131,14 @@ def int_binop(eng, op, a, b, st):
     if isinstance(op, ast.BitXor):
         if a.op == 'int' and b.op == 'int':
             return [(st, VInt(I(a.args[0] ^ b.args[0])))]
-        return [(st, VInt(t.app('bxor_big', t.INT, a, b)))]
+        # bytes: 8-bit vectors (exact); wider operands: uninterpreted
+        inb = t.and_(t.le(t.ZERO, a), t.lt(a, I(256)), t.le(t.ZERO, b), t.lt(b, I(256)))
+        x8 = t.app('bxor', t.INT, a, b)
+        st.assume(t.and_(t.le(t.ZERO, x8), t.lt(x8, I(256))))      # by definition (bv2nat of an 8-bit vector)
+        k = st.known(inb)
+        if k is True:
+            return [(st, VInt(x8))]
+        return [(st, VInt(t.ite(inb, x8, t.app('bxor_big', t.INT, a, b))))]
     if isinstance(op, ast.Pow):
         if a.op == 'int' and b.op == 'int' and b.args[0] >= 0:
             return [(st, VInt(I(a.args[0] ** b.args[0])))]
